@@ -139,9 +139,12 @@ def run(ctx):
             locs = backward_slice(rf, [op_place(a)], through_calls=False).locals if op_place(a) else set()
             pushes = [bi for bi, t in rf.calls() if call_matches(t, ['re:Vec.*::push$']) and t['a'] and op_place(t['a'][0]) is not None and (backward_slice(rf, [op_place(t['a'][0])], through_calls=False).locals & locs)]
             sl = backward_slice(rf, [op_place(a)]) if op_place(a) else None
-            other = [c for c in (sl.calls if sl else []) if re.search(r'(BTreeMap|HashMap|BTreeSet|::sort|::collect|::reverse|into_values|::dedup)', c)]
-            ok = len(pushes) == 1 and not other and pushes[0] in rf.reaches(pushes[0])
-            det = 'pushes %s, other producers %s' % (pushes, other[:2])
+            # order-preserving producers: push in the line loop, or collect() straight from the line iterator; anything that can
+            # reorder or re-key (maps, sets, sort, reverse, swap, dedup, rev) is reported
+            other = [c for c in (sl.calls if sl else []) if re.search(r'(BTreeMap|HashMap|BTreeSet|HashSet|BinaryHeap|::sort|::reverse|::rev$|::swap|::rotate_|into_values|::dedup|::retain|::insert$|::remove$|::swap_remove$)', c)]
+            coll = [c for c in (sl.calls if sl else []) if re.search(r'Iterator::collect$', c)]
+            ok = ((len(pushes) >= 1 and all(x in rf.reaches(x) for x in pushes)) or bool(coll)) and not other
+            det = 'pushes %s, collect %s, reordering producers %s' % (pushes, coll[:1], other[:3])
         ctx.ob('3g columns-kept-in-file-order', 'K4-provenance', rf.path,
                'Metadata.columns is the vector the col<i>= lines were pushed onto in file order (no map, sort or re-collection in between): column i of the file is column i of the database', ok, det)
     # ------------------------------------------------ 4. administration touches only its column
